@@ -6,12 +6,12 @@ from vf.gen import ALL_KINDS, gen_data
 from vf.models import costs as M
 from vf.spec import ND, S, build, short
 
-SHARDS = {"quick": 4, "thorough": 16}
+SHARDS = {"quick": 16, "thorough": 16}
 WATCHDOG = {"quick": 900, "thorough": 7200}
-CASES = {"quick": 160, "thorough": 900}  # per shard
+CASES = {"quick": 200, "thorough": 900}  # per shard
 FLOORS = {
-    "quick": {"distinct_nontrivial": 100, "rows_checked": 20000, "cases[GaussianCovCost]": 30,
-              "cases[int64 data]": 25, "K5_rows_audited": 3000},
+    "quick": {"distinct_nontrivial": 1700, "rows_checked": 260000, "cases[GaussianCovCost]": 420,
+              "cases[int64 data]": 100, "K5_rows_audited": 17000},
     "thorough": {"distinct_nontrivial": 2000, "rows_checked": 500000},
 }
 ANCHORS = [
